@@ -800,12 +800,17 @@ package fsutil
 // ---------------------------------------------------------------------------
 
 // visibility of a path is the result of the last incremental match along its
-// component chain - the entry point Walk uses
+// component chain - the entry point Walk uses: one evaluation per component, root first, each
+// with the result of the one before (a walk reaches a path only through all its ancestors, and
+// the matcher's answer with parent results depends on every ancestor's result)
 //@ func matchesLikeWalk
 //@   property C11 C10
 //@   requires pm != nil
 //@   effects MatchRes
 //@   loop 0 invariant last: rangeindex >= 0 ==> cnt(MatchRes) > old(cnt(MatchRes)) && arg(MatchRes, 0) == pm && arg(MatchRes, 1) == m
+//@   loop 0 invariant one_match_per_component: cnt(MatchRes) == old(cnt(MatchRes)) + rangeindex + 1 && rangeindex < len(parts) && len(parts) == specComponents(filepath.Clean(p))
+//@   at call strings.Join: leading_components: len(arg0) == cnt(MatchRes) - old(cnt(MatchRes)) + 1 && ref(arg0) == ref(parts) && off(arg0) == off(parts) && arg1 == "/"
+//@   ensures every_ancestor_evaluated_in_turn: result1 == nil ==> cnt(MatchRes) == old(cnt(MatchRes)) + specComponents(filepath.Clean(p))
 //@   ensures decided_by_incremental_match: result1 == nil ==> cnt(MatchRes) > old(cnt(MatchRes)) && arg(MatchRes, 0) == pm && arg(MatchRes, 1) == result0
 
 // Open hides exactly what the matchers hide, decided through matchesLikeWalk
@@ -864,7 +869,7 @@ package fsutil
 // wraps exactly that view and the caller's map function; matchers exist iff there are patterns
 //@ func NewFilterFS
 //@   property C10 C11 C18
-//@   modifies array string, array os.DirEntry, maps string struct{}
+//@   modifies array os.DirEntry, maps string struct{}
 //@   effects FollowedToRoot GlobMatch GlobMatchRes EntryResolved
 //@   ensures no_options: opt == nil ==> result0 == fs && result1 == nil
 //@   ensures wraps: opt != nil && result1 == nil ==> isptr(result0, filterFS) && asptr(result0, filterFS) != nil && fresh(asptr(result0, filterFS)) && asptr(result0, filterFS).fs == fs && asptr(result0, filterFS).mapFn == opt.Map
@@ -873,14 +878,31 @@ package fsutil
 // a follow-path that reaches the root needs the whole view: no include filter remains, whatever
 // include patterns the caller gave (they were kept: found and repaired, F21)
 //@   ensures root_reached_means_no_include_filter: opt != nil && result1 == nil && cnt(FollowedToRoot) > old(cnt(FollowedToRoot)) && arg(FollowedToRoot, 0) ==> asptr(result0, filterFS).includeMatcher == nil
+// pruning is allowed only for pattern lists that are plain prefixes: a flag that permits it stays
+// set only if no pattern of the relevant polarity, minus its one trailing glob, contains ANY
+// character the matcher treats specially - including the escape character (an escaped pattern is
+// not the literal prefix the pruning tests compare with)
+//@   loop 0 invariant include_flag: (forall k int :: {includeMatcher.Patterns()[k]} 0 <= k && k <= rangeindex ==> includeMatcher.Patterns()[k].Exclusion() || !strings.ContainsAny(specStripped(includeMatcher.Patterns()[k].String()), "*[]?^\\"))
+//@   loop 0 invariant include_bound: rangeindex < len(includeMatcher.Patterns())
+//@   loop 1 invariant exclude_flag: (forall k int :: {excludeMatcher.Patterns()[k]} 0 <= k && k <= rangeindex ==> !excludeMatcher.Patterns()[k].Exclusion() || !strings.ContainsAny(specStripped(excludeMatcher.Patterns()[k].String()), "*[]?^\\"))
+//@   loop 1 invariant exclude_bound: rangeindex < len(excludeMatcher.Patterns())
+//@   ensures include_pruning_only_for_plain_prefixes: opt != nil && result1 == nil && asptr(result0, filterFS).includeMatcher != nil && asptr(result0, filterFS).onlyPrefixIncludes ==> (forall k int :: {asptr(result0, filterFS).includeMatcher.Patterns()[k]} 0 <= k && k < len(asptr(result0, filterFS).includeMatcher.Patterns()) ==> asptr(result0, filterFS).includeMatcher.Patterns()[k].Exclusion() || !strings.ContainsAny(specStripped(asptr(result0, filterFS).includeMatcher.Patterns()[k].String()), "*[]?^\\"))
+//@   ensures exclude_pruning_only_for_plain_prefixes: opt != nil && result1 == nil && asptr(result0, filterFS).excludeMatcher != nil && asptr(result0, filterFS).onlyPrefixExcludeExceptions ==> (forall k int :: {asptr(result0, filterFS).excludeMatcher.Patterns()[k]} 0 <= k && k < len(asptr(result0, filterFS).excludeMatcher.Patterns()) ==> !asptr(result0, filterFS).excludeMatcher.Patterns()[k].Exclusion() || !strings.ContainsAny(specStripped(asptr(result0, filterFS).excludeMatcher.Patterns()[k].String()), "*[]?^\\"))
+// later patterns override earlier ones: the caller's include patterns reach the matcher in the
+// caller's order, followed by the link targets (never re-ordered among themselves or with them)
+//@   at call dedupePaths: patterns_then_targets: len(arg0) == len(opt.IncludePatterns) + len(targets)
+//@   at call dedupePaths: caller_order_kept: (forall k int :: {arg0[k]} 0 <= k && k < len(opt.IncludePatterns) ==> arg0[k] == opt.IncludePatterns[k])
+//@   at call dedupePaths: targets_in_resolved_order: (forall k int :: {arg0[k]} len(opt.IncludePatterns) <= k && k < len(arg0) ==> arg0[k] == targets[k - len(opt.IncludePatterns)])
 //@   at call FollowLinks: same_view: arg0 == fs && arg1 == opt.FollowPaths
 //@   at call patternmatcher.New#1: caller_excludes: arg0 == opt.ExcludePatterns
 
 // the prefix a pattern stands for in the pruning tests: the pattern minus at most ONE trailing
 // glob component ("x/**" or "x/*" -> "x"); stripping two ("a/*/**" -> "a") turns a wildcard
 // pattern into a plain prefix and prunes directories that contain matches (found and repaired)
+//@ pred specStripped(s string) string = ite(strings.HasSuffix(s, "/**"), strings.TrimSuffix(s, "/**"), strings.TrimSuffix(s, "/*"))
 //@ func patternWithoutTrailingGlob
 //@   property C10
+//@   ensures stripped: result == specStripped(p.String())
 //@   ensures at_most_one_glob: result == p.String() || result + "/**" == p.String() || result + "/*" == p.String()
 //@   ensures strips_doublestar: strings.HasSuffix(p.String(), "/**") ==> result + "/**" == p.String()
 //@   ensures strips_star: !strings.HasSuffix(p.String(), "/**") && strings.HasSuffix(p.String(), "/*") ==> result + "/*" == p.String()
@@ -1001,7 +1023,7 @@ package fsutil
 //@   posteffect FollowedToRoot(result0 == nil) when result1 == nil
 //@   use pathless_irrefl pathless_trans pathless_total pathless_asym
 //@   opaque specPathLess specInside
-//@   modifies array os.DirEntry, array string, maps string struct{}
+//@   modifies array os.DirEntry, maps string struct{}
 //@   loop 1 invariant distinct: forall a int, b int :: {res[a], res[b]} 0 <= a && a < b && b < len(res) ==> res[a] != res[b]
 //@   loop 1 invariant seen: forall a int :: {res[a]} 0 <= a && a < len(res) ==> visited(0, res[a])
 //@   loop 1 invariant own: fresh(res)
@@ -1036,7 +1058,7 @@ package fsutil
 //@ func symlinkResolver.readSymlink
 //@   property C18
 //@   requires r != nil
-//@   modifies array os.DirEntry, array string
+//@   modifies array os.DirEntry
 //@   effects GlobMatch GlobMatchRes EntryResolved
 //@   posteffect EntryResolved(p) when !allowWildcard && result1 == nil
 //@   ensures literal_path_matches_nothing: !allowWildcard ==> cnt(GlobMatch) == old(cnt(GlobMatch)) && cnt(GlobMatchRes) == old(cnt(GlobMatchRes)) && arg(GlobMatch, 0) == old(arg(GlobMatch, 0)) && arg(GlobMatch, 1) == old(arg(GlobMatch, 1)) && when(GlobMatch) == old(when(GlobMatch)) && arg(GlobMatchRes, 0) == old(arg(GlobMatchRes, 0))
@@ -1045,6 +1067,7 @@ package fsutil
 //@   at call path/filepath.Match: offered_by_name: arg0 == filepath.Base(p) && arg1 == f.Name()
 //@   at call symlinkResolver.readSymlink: resolved_as_a_path_of_its_own: arg1 == filepath.Join(filepath.Dir(p), f.Name()) && !arg2 && arg(GlobMatchRes, 0) && arg(GlobMatch, 1) == f.Name()
 //@   loop 0 invariant bound: rangeindex < len(fis)
+//@   loop 0 invariant own_result: out == nil || fresh(out)
 
 // Termination measure of the resolver as a contract: a path that resolves to
 // link targets is added to the (finite) set of resolved paths as a NEW element
@@ -1055,7 +1078,7 @@ package fsutil
 //@   property C18
 //@   requires r != nil && r.resolved != nil
 //@   effects GlobMatch GlobMatchRes EntryResolved
-//@   modifies r.resolved[*], array os.DirEntry, array string
+//@   modifies r.resolved[*], array os.DirEntry
 //@   loop 0 invariant unchanged: (forall k string :: haskey(r.resolved, k) == old(haskey(r.resolved, k))) && len(r.resolved) == old(len(r.resolved))
 //@   loop 1 invariant grown: (forall k string :: old(haskey(r.resolved, k)) ==> haskey(r.resolved, k)) && len(r.resolved) > old(len(r.resolved)) && haskey(r.resolved, current)
 //@   ensures grows: forall k string :: old(haskey(r.resolved, k)) ==> haskey(r.resolved, k)
@@ -1119,6 +1142,37 @@ package fsutil
 //@   posteffect WaitOK() when result == nil
 //@   at call path/filepath.WalkDir: writers_done_first: cnt(GroupWait) == old(cnt(GroupWait)) + 1
 
+// The identity comparison has something to compare with: unless the receiver merges, the second
+// input of the diff is a walk of the whole destination directory (unfiltered, from its root, with
+// the same stat constructor as a source walk) - whatever differ is configured, since entries that
+// exist only in the destination are deleted by every differ.
+//@ effectdecl DestWalker(root string)
+//@ func getWalkerFn
+//@   property C01 C02 C05
+//@   modifies nothing
+//@   effects DestWalker
+//@   posteffect DestWalker(root)
+//@   ensures result != nil
+//@ func getWalkerFn$1
+//@   property C01 C02 C05
+//@   modifies heap
+//@   effects *
+//@   at call Walk: whole_destination_unfiltered: arg1 == root && arg2 == nil
+//@ func Walk
+//@   property C01 C02 C10
+//@   modifies heap
+//@   effects *
+//@   at call NewFS: of_the_directory: arg0 == p
+//@   at call NewFilterFS: callers_filter: arg1 == opt
+//@   at call FS.Walk: from_the_root: arg1 == "/"
+//@ func WalkDir
+//@   property C10
+//@   modifies heap
+//@   effects *
+//@   at call NewFS: of_the_directory: arg0 == p
+//@   at call NewFilterFS: callers_filter: arg1 == opt
+//@   at call FS.Walk: from_the_root_to_the_caller: arg1 == "/" && arg2 == fn
+
 // the diff goroutine of a receive: FIN is sent only after the diff (which ends with the
 // end-of-stats marker) and the disk writer's wait (all requested content written, directory
 // times fixed) both succeeded, and it is the last message of this goroutine
@@ -1127,6 +1181,8 @@ package fsutil
 //@   requires r != nil && dw != nil && w != nil
 //@   modifies heap
 //@   effects *
+//@   at call doubleWalkDiff: destination_compared_unless_merging: (r.merge ==> cnt(DestWalker) == old(cnt(DestWalker))) && (!r.merge ==> cnt(DestWalker) > old(cnt(DestWalker)) && arg(DestWalker, 0) == r.dest)
+//@   at call doubleWalkDiff: configured_diff: arg4 == r.filter && arg5 == r.differ
 //@   at call Stream.SendMsg: fin_after_diff_and_wait: cnt(DiffOK) > old(cnt(DiffOK)) && cnt(WaitOK) > old(cnt(WaitOK)) && when(DiffOK) < when(WaitOK) && asptr(arg0, types.Packet).Type == types.PACKET_FIN
 //@   ensures fin_iff_success: retErr == nil ==> cnt(SendMsg) >= old(cnt(SendMsg)) + 1 && arg(SendMsg, 0) == types.PACKET_FIN && when(WaitOK) < when(SendMsg)
 
